@@ -19,7 +19,7 @@ def rand_event(rng, t, allow_smf=False, wild=True):
     ch = rng.randint(0, 15)
     val = (lambda: rand_value(rng)) if wild else (lambda: rng.randint(0, 127))
     if k == "on":
-        return "on:%d:%d:%d:%d:%d:~" % (t, ch, val(), rng.choice([0, 1, 10, 48, 96, 500, rng.randint(0, 2000)]), val())
+        return "on:%d:%d:%d:%d:%d:~" % (t, ch, val(), rng.choice([0, 1, 10, 48, 96, 500, rng.randint(0, 2000), -1, -10, -rng.randint(1, 600)]), val())
     if k == "cc":
         return "cc:%d:%d:%d:%d:0:~" % (t, ch, val(), val())
     if k == "pb":
